@@ -124,6 +124,26 @@ FRAME_TABLE = {
     'eqsig.fns.peaks_and_crossings.get_n_cyc_array': (dict(values=A_('a')), {}),
     'eqsig.fns.peaks_and_crossings.clean_out_non_changing': (dict(values=A_('a')), {}),
     'eqsig.fns.peaks_and_crossings.get_zero_and_peak_array_indices': (dict(pvals=A_('a')), {}),
+    'eqsig.displacements.velocity_and_displacement_from_acceleration': (dict(acceleration=A_('a'), dt=R_('dt')), {}),
+    'eqsig.fns.frequency.generate_smooth_fa_spectrum': (dict(smooth_fa_frequencies=A_('sf', 'P', pos=True), fa_frequencies=A_('f', pos=True, asc=True), fa_spectrum=A_('F')), {}),
+    'eqsig.fns.frequency.fas2signal': (dict(fas=A_('F', dtype='complex'), dt=R_('dt')), {}),
+    'eqsig.fns.peaks_and_crossings.determine_indices_of_peaks_for_cleaned_array': (dict(values=A_('a')), {}),
+    'eqsig.fns.peaks_and_crossings.determine_peak_only_delta_series_4_cleaned_data': (dict(values=A_('a')), {}),
+    'eqsig.fns.peaks_and_crossings.get_peak_indices': (dict(asig=SIG()), {}),
+    'eqsig.fns.peaks_and_crossings.get_zero_crossings_indices': (dict(asig=SIG()), {}),
+    'eqsig.fns.peaks_and_crossings.get_switched_peak_indices': (dict(asig=SIG()), {}),
+    'eqsig.fns.time_shift.join_sig_w_time_shift': (dict(sig=SIG(), time_shifts=('consts', ['0.01', '0.03'])), {}),
+    'eqsig.fns.time_step.time_series_from_motion': (dict(motion=A_('a'), dt=R_('dt')), {}),
+    'eqsig.im.calc_significant_duration': (dict(motion=A_('a'), dt=R_('dt')), {}),
+    'eqsig.im.calculate_peak': (dict(motion=A_('a')), {}),
+    'eqsig.im.calc_cav_dp': (dict(asig=SIG()), {}),
+    'eqsig.im.calc_bracketed_duration': (dict(asig=SIG(), threshold=R_('thr')), {}),
+    'eqsig.im.calc_cumulative_abs_displacement': (dict(asig=SIG()), {}),
+    'eqsig.stockwell.get_stockwell_freqs': (dict(asig=SIG()), {}),
+    'eqsig.stockwell.get_stockwell_times': (dict(asig=SIG()), {}),
+    'eqsig.fns.peaks_and_crossings.get_major_change_indices': (dict(y=A_('a')), {}),
+    'eqsig.fns.peaks_and_crossings.get_major_change_indices#dx': (dict(y=A_('a'), dx=R_('dx')), {}),
+    'eqsig.fns.peaks_and_crossings.get_major_change_indices#already-differentiated-with-dx': (dict(y=A_('a'), already_diff=True, dx=R_('dx')), {}),
     'eqsig.fns.time_shift.put_array_in_2d_array': (dict(values=A_('a'), shifts=('ints', [0, 2, 1])), {}),
     'eqsig.fns.time_shift.join_values_w_shifts': (dict(values=A_('a'), shifts=('ints', [0, 2, 1])), {}),
     'eqsig.fns.time_step.interp_array_to_approx_dt': (dict(values=A_('a'), dt=Q('0.02'), target_dt=Q('0.01')), {}),
